@@ -220,6 +220,9 @@ class RawServer(P.Server):
 
     def script(self, c):
         for ch in self.chunks:
+            if ch == 'AGAIN':
+                yield ('again',)
+                continue
             yield ('send', ch, 'raw')
         if getattr(self, 'then_abort', False):
             yield ('reset_known',)      # abortive close that the tool's sending side sees at once; the bytes above stay readable
@@ -241,14 +244,14 @@ def framed_by_tool(payload):
     return data
 
 
-def read_by_tool(data, sshv=2):
+def read_by_tool(data, sshv=2, exit_on_error=True):
     srv = RawServer([data])
     w = H.world_for(srv)
     vnet.set_world(w)
     s = SSH_Socket(OutputBuffer(), H.HOST, 22, timeout=1)
     s.connect()
     try:
-        return s.read_packet(sshv)
+        return s.read_packet(sshv) if exit_on_error else s.read_packet(sshv, exit_on_error=False)
     except SystemExit:
         return ('exit', b'')
     finally:
@@ -388,6 +391,11 @@ def check_ssh1(st):
         st.execution(None, outcome=('ssh1-corrupt', t == 'exit'), root=('ssh1-corrupt', bit), nontrivial=('ssh1-corrupt', bit))
         if t != 'exit' and not (isinstance(t, int) and t < 0):
             st.violation('ssh1-reader-accepts-corrupted-packet', {'bit': bit, 'type': t})
+        # ... and the same through the variant of the reader that reports errors to its caller (multi-target scans, probe connections)
+        t2, _p2 = read_by_tool(bytes(b), 1, exit_on_error=False)
+        st.execution(None, outcome=('ssh1-corrupt-noexit', t2), root=('ssh1-corrupt-noexit', bit), nontrivial=('ssh1-corrupt-noexit', bit))
+        if t2 == 'exit' or not (isinstance(t2, int) and t2 < 0):
+            st.violation('ssh1-reader-accepts-corrupted-packet:error-returning-variant' if t2 != 'exit' else 'ssh1-reader-exits-although-told-not-to', {'bit': bit, 'type': t2})
     st.sample({'ssh1_packet_len': len(pkt), 'bit_flips': len(pkt) * 8 - 32}, cap=14)
 
 
